@@ -1861,3 +1861,9 @@ T('k18_context_guarded_by_view_argument', ['C18'], (META, GMAIN, '''        want
             full_ctx.setdefault(peri.group_key, {}).update(peri_ctx)
         return full_ctx
 '''))
+T('k18_listing_rows_namedtuple', ['C18'], (META, "DEFAULT_PAGE_TITLE = 'Clastic'\n", "DEFAULT_PAGE_TITLE = 'Clastic'\n_ResourceRow = __import__('collections').namedtuple('_ResourceRow', 'key value')\n"),
+  (META, "        ret.append({'key': key, 'value': trunc_val})", "        ret.append(_ResourceRow(key, trunc_val)._asdict())"))
+T('k18_listing_rows_zip_keys_constant', ['C18'], (META, "DEFAULT_PAGE_TITLE = 'Clastic'\n", "DEFAULT_PAGE_TITLE = 'Clastic'\n_ROW_KEYS = ('key', 'value')\n"),
+  (META, "        ret.append({'key': key, 'value': trunc_val})", "        ret.append(dict(zip(_ROW_KEYS, (key, trunc_val))))"))
+B('k18_listing_rows_zip_keys_constant_renamed', ['C18'], 'R18.d', (META, "DEFAULT_PAGE_TITLE = 'Clastic'\n", "DEFAULT_PAGE_TITLE = 'Clastic'\n_ROW_KEYS = ('name', 'shown')\n"),
+  (META, "        ret.append({'key': key, 'value': trunc_val})", "        ret.append(dict(zip(_ROW_KEYS, (key, trunc_val))))"))
